@@ -96,14 +96,23 @@ package db
 //@   ensures[committed-only-if-every-statement-succeeded] result == nil ==> stmtFail == old(stmtFail)
 
 // ---- the certificate store's other statements (C02, C13): assumed semantics (A5), texts pinned
+// lastCertNoRows: the last "last certificate" statement found no row; lastCertQueryFaults counts such statements that
+// failed for another reason (ghost, observed at the library call)
+//@ ghost var lastCertNoRows bool
+//@ ghost var lastCertQueryFaults int
 //@ extern github.com/russross/meddler.QueryRow@db.(*AggSenderSQLStorage).GetLastSentCertificate (conn, dst, query, args)
 //@   requires typeIs(dst, *certificateInfo) && cast(dst, *certificateInfo) != nil
-//@   modifies *cast(dst, *certificateInfo)
+//@   modifies *cast(dst, *certificateInfo), lastCertNoRows, lastCertQueryFaults
+//@   ensures lastCertNoRows == (result != nil && isErr(result, sql.ErrNoRows))
+//@   ensures lastCertQueryFaults == old(lastCertQueryFaults) + ite(result != nil && !isErr(result, sql.ErrNoRows), 1, 0)
 //@ func (a *AggSenderSQLStorage) GetLastSentCertificate (a)
 //@   props C02 C13
 //@   requires a != nil
-//@   modifies nothing
+//@   modifies lastCertNoRows, lastCertQueryFaults
 //@   ensures[error-means-nothing] result1 != nil ==> result0 == nil
+// "no certificate yet" is answered only when the statement found no row, and a failed statement is never read as that
+//@   ensures[nothing-only-when-the-store-is-empty] (result1 == nil && result0 == nil) ==> lastCertNoRows
+//@   ensures[a-failed-query-is-reported] result1 == nil ==> lastCertQueryFaults == old(lastCertQueryFaults)
 //@   assert call:QueryRow arg0 == a.db && len(arg3) == 0
 //@   sqltext "SELECT * FROM certificate_info ORDER BY height DESC LIMIT 1;"
 // the last certificate's header, with its stored aggchain proof only when that certificate is in error (what an FEP
@@ -112,12 +121,17 @@ package db
 // at the library call (A5).
 //@ extern github.com/russross/meddler.QueryRow@db.(*AggSenderSQLStorage).GetLastSentCertificateHeaderWithProofIfInError (conn, dst, query, args)
 //@   requires (typeIs(dst, *types.CertificateHeader) && cast(dst, *types.CertificateHeader) != nil) || (typeIs(dst, *types.Certificate) && cast(dst, *types.Certificate) != nil)
-//@   modifies *cast(dst, *types.CertificateHeader), *cast(dst, *types.Certificate)
+//@   modifies *cast(dst, *types.CertificateHeader), *cast(dst, *types.Certificate), lastCertNoRows, lastCertQueryFaults
+//@   ensures typeIs(dst, *types.CertificateHeader) ==> lastCertNoRows == (result != nil && isErr(result, sql.ErrNoRows))
+//@   ensures !typeIs(dst, *types.CertificateHeader) ==> lastCertNoRows == old(lastCertNoRows)
+//@   ensures lastCertQueryFaults == old(lastCertQueryFaults) + ite(result != nil && !(typeIs(dst, *types.CertificateHeader) && isErr(result, sql.ErrNoRows)), 1, 0)
 //@ func (a *AggSenderSQLStorage) GetLastSentCertificateHeaderWithProofIfInError (a, ctx)
 //@   props C02 C13
 //@   requires a != nil && a.logger != nil && a.db != nil
-//@   modifies heap
+//@   modifies heap, lastCertNoRows, lastCertQueryFaults
 //@   ensures[error-means-nothing] result2 != nil ==> result0 == nil && result1 == nil
+//@   ensures[nothing-only-when-the-store-is-empty] (result2 == nil && result0 == nil) ==> lastCertNoRows
+//@   ensures[a-failed-query-is-reported] result2 == nil ==> lastCertQueryFaults == old(lastCertQueryFaults)
 //@   ensures[a-stored-proof-only-with-a-certificate-in-error] (result2 == nil && result1 != nil) ==> result0 != nil && result0.Status == agglayertypes.InError
 //@   assert call:QueryRow:1 len(arg3) == 1 && typeIs(arg3[0], uint64) && unbox(arg3[0], uint64) == certificateHeader.Height
 //@   sqltext "SELECT aggchain_proof FROM certificate_info WHERE height = $1;"
